@@ -47,8 +47,9 @@ impl Thread {
     /// used as a more CPU-efficient implementation of a spinlock.
     ///
     /// See the [park documentation][park] for more details.
+    #[track_caller]
     pub fn unpark(&self) {
-        rt::execution(|execution| execution.threads.unpark(self.id.id));
+        rt::unpark(self.id.id, location!());
     }
 }
 
